@@ -263,6 +263,22 @@ example : readBytes [(0, [1, 2, 3]), (3, [4, 5])] 2 2 = none ∧ readBytes [(0, 
   decide
 
 
+/-- `P% of S` (repair of finding F44): what OP_OF_PERCENT computes, `floor(found * 100 / count) >= P` in integer arithmetic,
+    is the specification's exact `found / count >= P / 100` — for every count > 0, every found (in particular all
+    found <= count) and EVERY integer P (negative, 0, above 100 included); an undefined P gives undefined. -/
+theorem pct_model_is_spec (found count : Nat) (hc : count > 0) :
+    (∀ p : Int, p ≠ UNDEF → pctResult p found count = b2i (decide ((found : Int) * 100 ≥ p * (count : Int)))) ∧
+    (∀ p : Int, p ≠ UNDEF → pctResult p found count = toVm (pctHolds found count (.int p))) ∧
+    pctResult UNDEF found count = toVm (pctHolds found count .undef) := by
+  have key : ∀ p : Int, p ≠ UNDEF → pctResult p found count = toVm (pctHolds found count (.int p)) :=
+    fun p hp => w_pct (.int p) found count (by omega) (Or.inr ⟨p, rfl, hp⟩)
+  refine ⟨fun p hp => ?_, key, w_pct .undef found count (by omega) (Or.inl rfl)⟩
+  rw [key p hp]
+  simp [pctHolds, toVm]
+
+/-- the situation of F44: 29 of 50 strings satisfy `58% of them` (in double precision 29/50*100 = 57.99…), not `59%` -/
+example : pctResult 58 29 50 = 1 ∧ pctResult 59 29 50 = 0 ∧ pctResult (-3) 0 7 = 1 ∧ pctResult 101 7 7 = 0 := by decide
+
 /-! ## (e) the string operators: sizedstr.c as regenerated = the specification over byte lists -/
 
 open YaraModel.Gen.SizedStr in
@@ -392,9 +408,9 @@ example : OP_LENGTH [⟨0, 3, 700, 512⟩, ⟨0, 900, 2, 2⟩] 1 = 700 ∧ OP_OF
 theorem compile_correct (env : Env) (henv : EnvOk env) (cond : Expr) (hwf : WF' env (ctxOfEnv env) {} cond) :
     ∃ fuel, modelVerdict env cond fuel = some (ruleVerdict env cond)
 
-   where WF' is WF without its two exclusions: floating-point sub-expressions (Lean's `Float` is opaque to proofs, so
-   `toVm`/`vmToFlt` round-trips cannot be established) and `P% of S` (computed in double precision by OP_OF_PERCENT;
-   finding F44).  Everything else — all operators, string queries, the `of` family, `for..in` over ranges and
+   where WF' is WF without its exclusion: floating-point sub-expressions (Lean's `Float` is opaque to proofs, so
+   `toVm`/`vmToFlt` round-trips cannot be established).  Everything else — all operators, string queries, the `of`
+   family including `P% of` (exact integer arithmetic since the repair of finding F44), `for..in` over ranges and
    enumerations, `for..of`, arbitrary nesting (up to the 4 loop levels the compiler allows) — is covered by
    `compile_correct_partial` below.  The remaining clauses of WF are not restrictions of the fragment but the exact
    conditions under which libyara's code is correct: they exclude the situations of findings F14 (an integer equal to
@@ -403,9 +419,9 @@ theorem compile_correct (env : Env) (henv : EnvOk env) (cond : Expr) (hwf : WF' 
    of stepping past INT64_MAX, and the model's `iterAdvance` does the same.  F43 — loop bodies summed instead of counted — is repaired in exec.c; the model's OP_ITER_CONDITION normalises the
    body value like the code does, and the raw value a short-circuited `or` leaves on the stack is handled by `WordOK`.) -/
 
-/-- **compile_correct** (all constructs except floats and `P% of`): for every environment whose memory blocks lie in
+/-- **compile_correct** (all constructs except floats): for every environment whose memory blocks lie in
     the lower half of the address space and every condition satisfying `WF` (well-typed as the compiler types it; no
-    float, no `P% of`; none of the situations of findings F14/F42), running the code that `compile` emits — the
+    float; none of the situations of findings F14/F42), running the code that `compile` emits — the
     mirror of grammar.y's actions: typed opcode selection, OP_STR_TO_BOOL, short-circuit jumps with their fix-ups,
     end-of-list markers, the loop template with 3 internal + 1 user variable per nesting level and the
     ITER_NEXT / ITER_CONDITION / ITER_END protocol — on the VM model, whose pure opcodes are `Gen.VmOps` as
@@ -483,5 +499,17 @@ example : let env : Env := ⟨[], [], 0, [], []⟩
     simp at hb
   · simp [WF, tyOf, UNDEF, INT64_MIN, INT64_MAX, intRange, eval, ctxOfEnv, ValOk]
   · simp [ruleVerdict, eval, asBool, truthy, intRange, loopHolds, quantOf, quantHolds, countTrue, vCmp, cmpInt]
+
+/-- non-vacuity (`P% of`, inside compile_correct since the repair of F44): `50% of ($a, $b)` with only `$a` found -/
+example : let env : Env := ⟨[[(0, 2)], []], [(0, [97, 98])], 2, [], []⟩
+    let cond := Expr.pctStr (.int 50) [0, 1]
+    EnvOk env ∧ WF env (ctxOfEnv env) {} cond ∧ ruleVerdict env cond = true := by
+  refine ⟨?_, ?_, ?_⟩
+  · intro b hb
+    simp at hb
+    subst hb
+    decide
+  · simp [WF, tyOf, UNDEF, INT64_MIN, INT64_MAX]
+  · simp [ruleVerdict, eval, pctHolds, asBool, truthy, strFound, Env.matchesOf]
 
 end YaraModel.Cond
